@@ -8,7 +8,8 @@ FIX_COMMITS = ['c5b9684 (C05 DataReader EOD==0)', 'c3bb002 (C17 ESC prefix on 1x
                '927adda (C15/C03 DictStorage over shelve)', 'bd8a6c6 (C03 active until removed)',
                '6d62944 (C02 edges results[0])', '476db38 (C02 ProxyQueue per-recipient failures)',
                '044506a + a782ee8 (C11 pipe relays)', '6c9af79 (C11/C17 invalid reply code)', '511778e (C11 mixed-class rejected recipients)',
-               '19de51f (C11 HttpRelay never sets a result)']
+               '19de51f (C11 HttpRelay never sets a result)', '1cf38fb + ecb2777 (C08 STARTTLS injection, server and client)',
+               '81dab84 (C08 AUTH without argument)']
 
 ENGINES = [
     {'name': 'runner', 'path': 'vf/runner.py', 'serves_properties': [],
@@ -26,6 +27,8 @@ ENGINES = [
      'kind_free_text': 'recording proxies on slimta.diskstorage.{os,mkstemp,aio_write} that copy the directories before every file-system effect'},
     {'name': 'scripted-downstreams', 'path': 'vf/peers.py', 'serves_properties': ['C11'],
      'kind_free_text': 'StagePeer: in-memory reactive SMTP/LMTP server answering each protocol stage per script and recording what it accepted; HTTP peer and resolver stub in vf/props/c11_http.py'},
+    {'name': 'tls-socketpair', 'path': 'vf/props/c08.py', 'serves_properties': ['C08'],
+     'kind_free_text': 'real slimta Server / SmtpEdge / Client over gevent socketpairs with real TLS (committed self-signed certificate), harness-side lock-step wire reader'},
     {'name': 'reactive-peer', 'path': 'vf/props/c10.py', 'serves_properties': ['C10'],
      'kind_free_text': 'in-memory downstream that parses what the client sends and only then makes the scripted replies readable; a read when nothing is owed raises'},
     {'name': 'scripted-socket', 'path': 'vf/transport.py', 'serves_properties': ['C05', 'C17'],
@@ -187,6 +190,17 @@ CHECKS['C11'] = {
             'the peer recorded acceptance; failure classes follow 4xx/5xx; the attempt always ends with a result or a RelayError raised (never returned, never another type, never a hang)',
     'design_ref': 'DESIGN.md section 2 C11',
     'note': 'STARTTLS over a stub context (same channel); HTTP error without reply header is gray; reference decision written from the property statement',
+}
+CHECKS['C08'] = {
+    'engine': 'tls-socketpair',
+    'level': 'exploration',
+    'technique': 'property-based testing over real TLS handshakes on socketpairs: lock-step reply/command pairing, callback trace with encryption flag, exhaustive AUTH table with credential equality',
+    'text': 'generated plaintext prefixes, bytes pipelined behind STARTTLS (server) or behind the 220 reply (client) and commands over TLS: over TLS exactly one '
+            'reply per command in order, no injected command in the callback trace, every later callback encrypted, session back in its just-greeted state, STARTTLS no '
+            'longer offered; AUTH table over mechanism x argument shape x position x TLS mode x Unicode credentials x verdict: refused positions give 5xx without '
+            'callback, malformed lines give 5xx and the session goes on, authed iff the application left 235, credentials seen = credentials sent',
+    'design_ref': 'DESIGN.md section 2 C08',
+    'note': 'known finding: PLAIN/LOGIN accepted without TLS (pysasl 1.x has no insecure attribute; pinned test test_auth forbids the repair); 3 s lock-step guard per reply',
 }
 
 NOT_APPLICABLE = {}
